@@ -1128,6 +1128,11 @@ class Interp:
                     names |= x.names
                 elif isinstance(x, ClassRef):
                     names.add(x.node.name)
+                elif isinstance(x, ModRef) and x.kind == "ext" and x.name.startswith("numpy."):
+                    # numpy scalar classes: matched only by the numpy scalar model
+                    kind = {"numpy.floating": "float", "numpy.integer": "int", "numpy.complexfloating": "complex"}.get(x.name)
+                    if kind is not None and isinstance(v, NPVal) and v.dtype.kind == kind:
+                        return True
                 else:
                     raise Unsupported(f"isinstance type {x!r}")
             t = TypeSet(names)
